@@ -738,7 +738,7 @@ pub fn run(ctx: &mut Ctx) -> &'static str {
         }
     }
 
-    let n = ctx.n(900, 12000);
+    let n = ctx.n(3000, 30000);
     for k in 0..n {
         // every random choice of iteration k derives from (seed, k): `--only` regenerates the same
         // inputs and executes just the selected case
